@@ -1,8 +1,10 @@
 #!/bin/sh
-# Build the extractor and warm the dependency target dir (offline).  Cold: ~3 min.
+# Build the extractor and warm the dependency target dirs (offline, from files on disk only).
+# Cold: ~3 min for the default feature set + ~3 min for the reduced one used by the thorough tier.
 set -e
 cd "$(dirname "$0")"
 export CARGO_NET_OFFLINE=true
 (cd engine/extractor && cargo build --release --offline)
 python3 engine/raftlint/extract.py full
+python3 engine/raftlint/extract.py min || echo "warning: reduced feature set could not be warmed (thorough tier will retry)"
 echo "setup ok"
